@@ -68,18 +68,22 @@ Theorem C02_rt_is_modular_shifts_partial : forall lt rt a b,
 Proof. exact rt_shifts_modular_partial. Qed.
 Print Assumptions C02_rt_is_modular_shifts_partial.
 
-(* rt_bin is the value of an operator result once STORED (or passed): consumed directly by another
-   operator, a result of a type narrower than C int is not reduced to its type.  Full statement
-   Proofs.rt_context_independent (nested = stored first) is FALSE: int8 127 + 1 > 0 is true nested,
-   false stored; uint8 (200 + 100) // 2 is 150 nested, 22 stored *)
+(* rt_bin is the value of an operator result once STORED (or passed); rt_nested_l is the value when
+   the inner result is consumed directly by the outer operator.  Full statement
+   Proofs.rt_context_independent (nested = stored first, for every non-comparison inner operator,
+   every outer operator, all types and values).  Since 1d3f0fa results narrower than C int are cast
+   to their type; STILL FALSE for `///` of mixed signedness on a result type narrower than int,
+   emitted as ((T)l / (T)r) and not cast back: (int8(-128) /// uint8(255)) > 0 is true nested,
+   false stored *)
 Theorem C02_rt_context_independent_refuted : ~ rt_context_independent.
 Proof. exact rt_context_independent_refuted. Qed.
 Print Assumptions C02_rt_context_independent_refuted.
 
-(* ... true when both operators are + - * on operands of one signedness at least as wide as int *)
-Theorem C02_rt_context_independent_partial : forall o1 o2 t1 t2 t3 a b c, wf_ity t1 -> wf_ity t2 ->
-  (o1 = Badd \/ o1 = Bsub \/ o1 = Bmul) -> 32 <= bits t1 -> 32 <= bits t2 -> mixed t1 t2 = false ->
-  (o2 = Badd \/ o2 = Bsub \/ o2 = Bmul) -> 32 <= bits t3 -> mixed (promote_type t1 t2) t3 = false -> wf_ity t3 ->
+(* ... true for every inner operator except `///` / `%%%` of mixed signedness on a result type
+   narrower than int, for every outer operator, all types and ALL values *)
+Theorem C02_rt_context_independent_partial : forall o1 o2 t1 t2 t3 a b c,
+  wf_ity t1 -> wf_ity t2 -> is_cmpop o1 = false ->
+  ~ (mixed t1 t2 = true /\ (o1 = Btdiv \/ o1 = Btmod) /\ bits (rt_type o1 t1 t2) < 32) ->
   rt_nested_l o1 o2 t1 t2 t3 a b c = rt_stored_l o1 o2 t1 t2 t3 a b c.
 Proof. exact rt_context_independent_partial. Qed.
 Print Assumptions C02_rt_context_independent_partial.
